@@ -6,6 +6,7 @@
 import MinkModel.Pipeline
 import MinkModel.Literal
 import MinkModel.Output
+import MinkModel.Wire
 namespace Mink
 
 structure PState where
@@ -169,6 +170,74 @@ def pCase : P Case := do
   let s ← get
   pure { fs := ⟨files, dirOf, lookup, rel⟩, incdirs := incdirs, main := main, names := s.names }
 
+/-! ### `wire` requests: concrete argument values for one method -/
+
+def hexDigit (c : Char) : Nat :=
+  if '0' ≤ c ∧ c ≤ '9' then c.toNat - '0'.toNat
+  else if 'a' ≤ c ∧ c ≤ 'f' then c.toNat - 'a'.toNat + 10
+  else if 'A' ≤ c ∧ c ≤ 'F' then c.toNat - 'A'.toNat + 10 else 0
+
+def parseHex : List Char → List Nat
+  | a :: b :: r => (hexDigit a * 16 + hexDigit b) :: parseHex r
+  | _ => []
+
+def hexOf (bs : List Nat) : String :=
+  String.ofList (bs.flatMap fun b => [Nat.digitChar (b / 16), Nat.digitChar (b % 16)])
+
+def objOfTok (w : String) : Option Nat := if w == "-" then none else w.toNat?
+
+def objText : Option Nat → String
+  | none => "-"
+  | some n => toString n
+
+/-- (parameter name, kind letter, hex image, objects by path / in order) -/
+structure ValSpec where
+  name : String
+  kind : String
+  hex : String
+  pathObjs : List (String × Option Nat)
+  objs : List (Option Nat)
+  deriving Inhabited
+
+def pValSpec : P ValSpec := do
+  let name ← P.next
+  let kind ← P.next
+  match kind with
+  | "d" =>
+    let hex ← P.next
+    let k ← P.nat
+    let pos ← P.repeat k (do let p ← P.next; let o ← P.next; pure (p, objOfTok o))
+    pure ⟨name, kind, if hex == "-" then "" else hex, pos, []⟩
+  | "o" =>
+    let o ← P.next
+    pure ⟨name, kind, "", [], [objOfTok o]⟩
+  | "a" =>
+    let k ← P.nat
+    let os ← P.repeat k (do pure (objOfTok (← P.next)))
+    pure ⟨name, kind, "", [], os⟩
+  | w => throw s!"bad value kind {w}"
+
+structure WireReq where
+  case : Case
+  iface : String
+  method : String
+  vals : List ValSpec
+  deriving Inhabited
+
+def pWire : P WireReq := do
+  let c ← pCase
+  let i ← P.next
+  let m ← P.next
+  let k ← P.nat
+  let vs ← P.repeat k pValSpec
+  pure ⟨c, i, m, vs⟩
+
+def parseWire (line : String) : Except String WireReq :=
+  let toks := (line.splitOn " ").filter (· != "")
+  match pWire.run { toks := toks } with
+  | .ok (c, _) => .ok c
+  | .error e => .error e
+
 def parseCase (line : String) : Except String Case :=
   let toks := (line.splitOn " ").filter (· != "")
   match pCase.run { toks := toks } with
@@ -289,5 +358,49 @@ def facts (entry : Entry) (c : Case) (ub : Bool := false) : List String :=
     ["verdict accept"] ++ storeFacts c.names r.store ++
       sortStrings (r.sizes.map fun (n, sz, al) => s!"#layout {nm c.names n} {sz} {al}") ++
       sortStrings (dedup (mirFacts c.names r.mir)) ++ outputFacts c r.mir
+
+def slotText : PSlot → String
+  | .buf b => "buf:" ++ hexOf b
+  | .obj o => "obj:" ++ objText o
+
+def wireFacts (entry : Entry) (r : WireReq) : List String :=
+  let c := r.case
+  match compile entry c.fs c.incdirs c.main with
+  | .error e => [s!"verdict reject {e.toString}"]
+  | .ok comp =>
+    let found := comp.mir.findSome? fun
+      | .iface (l :: rest) =>
+        if nm c.names l.name == r.iface then
+          ((MIface.flatFuncs (l :: rest)).find? (fun of => nm c.names of.2.name == r.method)).map (·.2)
+        else none
+      | _ => none
+    match (found : Option MFunc) with
+    | none => ["bad-request no such method"]
+    | some f =>
+      let valOf (n : Nat) : PVal :=
+        match r.vals.find? (fun (v : ValSpec) => v.name == nm c.names n), f.params.find? (fun (p : MParam) => p.name == n) with
+        | some v, some p =>
+          if v.kind == "o" then .obj (v.objs.headD none)
+          else if v.kind == "a" then .objs v.objs
+          else
+            -- embedded objects in `objects()` order, looked up by their access path
+            let paths : List (List Nat × Option Nat) :=
+              match p.vkind with
+              | .bigStruct s | .smallStruct s => s.objects
+              | _ => []
+            let objs := paths.map fun (path, _) =>
+              let key := ".".intercalate (path.map (nm c.names))
+              ((v.pathObjs.find? (fun e => e.1 == key)).map (·.2)).getD none
+            .data (parseHex v.hex.toList) objs
+        | _, _ => .data [] []
+      let es := events f.params
+      let cs := counts f.params
+      [ "verdict accept",
+        s!"op {f.id}",
+        s!"counts {cs.bi},{cs.bo},{cs.oi},{cs.oo}",
+        s!"sections {",".intercalate ((slotSections f.params).map toString)}",
+        "req " ++ " ".intercalate ((encodeDir .inp valOf es).map slotText),
+        "rep " ++ " ".intercalate ((encodeDir .out valOf es).map slotText) ]
+
 
 end Mink
